@@ -9,6 +9,7 @@ trap 'rm -rf "$SCR"' EXIT
 rsync -a --exclude .git "$REPO"/ "$SCR"/repo/
 cd "$SCR/repo"
 unset AEGEAN_VERIF
+export OMP_NUM_THREADS=1 OPENBLAS_NUM_THREADS=1 MKL_NUM_THREADS=1
 PYTHONPATH="$SCR/repo" /venv/bin/python -m pytest -q -p no:cacheprovider --timeout=900 \
    --continue-on-collection-errors --junitxml="$SCR/junit.xml" "$@" >"$SCR/log" 2>&1
 tail -3 "$SCR/log"
